@@ -4,15 +4,32 @@ use yuvxyb::{
     ColorPrimaries as CP, Frame, MatrixCoefficients as MC, Pixel, Plane, TransferCharacteristic as TC, Yuv, YuvConfig,
 };
 
+/// The transfer / primaries labels a stream with this matrix normally carries (the standard's own
+/// companions): configurations are labelled the way real ones are, so that a shortcut keyed on
+/// "matrix and primaries belong together" is on the path of the accuracy checks. That the labels
+/// do not influence YUV<->RGB at all is C14's clause and is checked there over all label pairs.
+pub fn natural_labels(m: MC) -> (TC, CP) {
+    match m {
+        MC::BT470M => (TC::BT470M, CP::BT470M),
+        MC::BT470BG => (TC::BT470BG, CP::BT470BG),
+        MC::ST170M => (TC::ST170M, CP::ST170M),
+        MC::ST240M => (TC::ST240M, CP::ST240M),
+        MC::BT2020NonConstantLuminance | MC::BT2020ConstantLuminance => (TC::BT2020Ten, CP::BT2020),
+        MC::YCgCo => (TC::SRGB, CP::BT709),
+        _ => (TC::BT1886, CP::BT709),
+    }
+}
+
 pub fn cfg444(n: u8, full: bool, m: MC) -> YuvConfig {
+    let (t, p) = natural_labels(m);
     YuvConfig {
         bit_depth: n,
         subsampling_x: 0,
         subsampling_y: 0,
         full_range: full,
         matrix_coefficients: m,
-        transfer_characteristics: TC::BT1886,
-        color_primaries: CP::BT709,
+        transfer_characteristics: t,
+        color_primaries: p,
     }
 }
 
